@@ -1,7 +1,6 @@
 /* shared by shim_treetable.c and shim_treeset.c (both #include cc_treetable.c before this file):
  * counting comparators, tree dump and red-black walkers on the real heap.
- * NOTE: the harness build cache (tools/vlib.py) hashes the shim and common.h only; after editing this
- * file touch a comment in shim_treetable.c / shim_treeset.c (or remove .cache/bin/h_tree*). */
+ */
 #ifndef VERIF_TREE_COMMON_H
 #define VERIF_TREE_COMMON_H
 
